@@ -110,7 +110,11 @@ def cases(draw, tier="quick"):
         # further root models (-m A a.json -m B b.json) over the same keys: models of different roots get merged, a nested
         # class of one root may refer to another root
         from ..findings import all_keys
-        universe = sorted({k for s in c["samples"] for k in all_keys(s)}) or ["a"]
+        universe, folds = [], set()
+        for k in sorted({k for s in c["samples"] for k in all_keys(s)}) or ["a"]:
+            if gen.fold(k) not in folds:         # keys of one object have to be pairwise fold-distinct (finding K1)
+                folds.add(gen.fold(k))
+                universe.append(k)
         used = {c["opts"].get("root", "Root")}
         extra = []
         for _ in range(draw(st.integers(1, 2))):
